@@ -633,6 +633,11 @@ func (cs *ConsensusState) addVote(vote *types.Vote, peerID p2p.ID) (bool, error)
 			cs.Logger.Debug("Precommit vote came in after commit timeout and has been ignored", "vote", vote)
 			return false, nil
 		}
+		if cs.LastCommit == nil {
+			// there is no previous height to collect precommits for (initial height)
+			cs.Logger.Debug("Precommit vote for a height without last commit has been ignored", "vote", vote)
+			return false, nil
+		}
 
 		added, err = cs.LastCommit.AddVote(vote)
 		if !added {
